@@ -22,14 +22,14 @@ Lemma k_window yr : -2000 <= yr <= 4001 -> -41 <= kk yr / cc <= 21.
 Proof.
   intro H. rewrite kk_index. pose proof (Rround_bounds ((yr - Rlit 200005 (-2)) * Rlit 134223 (-4))) as Rb.
   set (n := IZR (Rround ((yr - Rlit 200005 (-2)) * Rlit 134223 (-4)))) in *.
-  assert (Hn : -55000 <= n + off <= 28000).
+  assert (Hn : -53692 <= n + off <= 26861).
   { revert Rb. unfold off. lit_norm. intro Rb. lra. }
   revert Hn. generalize (n + off). intros x Hx. unfold cc. lit_norm. split; interval.
 Qed.
 Lemma X_in_range yr : -2000 <= yr <= 4001 -> jde_in_range (v_jde_2 (kk yr)).
 Proof.
   intro H. pose proof (k_window yr H) as Hk. pose proof (dev_bound _ Hk) as D. apply abs_le_inv in D.
-  assert (Hx : -55000 <= kk yr <= 28000).
+  assert (Hx : -53692 <= kk yr <= 26861).
   { rewrite kk_index. pose proof (Rround_bounds ((yr - Rlit 200005 (-2)) * Rlit 134223 (-4))) as Rb. revert Rb. unfold off. lit_norm. intro Rb. lra. }
   revert D. unfold jde_in_range, J0, B, C. lit_norm. intro D. lra.
 Qed.
